@@ -400,6 +400,21 @@ func init() {
 				}
 			}
 		}
+		// more roots than the pipeline can hold in flight (workers x stages): back-pressure reaches the splitter
+		{
+			var roots []string
+			var lines []int
+			for i := 0; i < 8; i++ {
+				roots = append(roots, fmt.Sprintf("- r%d\n  - k%d\n", i, i))
+				lines = append(lines, 2)
+			}
+			d := docT{"many-roots", roots, lines, ""}
+			for _, op := range []string{"out-text", "walk", "out-json", "out-dry"} {
+				add(d, op, 1, w2, nil)
+				sp := &c10Spec{name: "many-roots/w1", op: op, roots: roots, lines: lines}
+				out = append(out, c10Scenario(sp, 1, w1only, pols))
+			}
+		}
 		// roots whose rendering is larger than a typical I/O buffer (4096 bytes): blocks must stay intact
 		{
 			big := func(r string) string {
